@@ -54,7 +54,7 @@ Definition roundtrip_yaml_oracle (input : json) (o : json) : option string :=
 
 Definition case_yaml (input obs : json) : verdict :=
   let tree := yaml_of (jget "tree" obs) in
-  let m := match parse_yaml_tree tree with
+  let m := match (match jget "tree" obs with JNull => Err | _ => parse_yaml_tree tree end) with
            | Ok (j, ps) => JObj [("o", JStr "ok"); ("v", JArr [j; JArr (map JStr ps)])]
            | Err => JObj [("o", JStr "err")] end in
   let nt := jbool (jget "nontrivial" input) in
